@@ -355,7 +355,24 @@ class Contract(Contract_):
         if a.kwarg is not None and a.kwarg.arg in inputs.vars:
             kw = inputs.vars[a.kwarg.arg]       # **kwargs given as a dict
             kwargs.update(kw.d if isinstance(kw, PDict) else kw)
-        env = ex.bind_args(func, args, kwargs)
+        shape = self.options.get("call")
+        if shape is not None:
+            # the call as callers write it, by contract parameter names:
+            # (["cmd", "data", "*address"], ["wkc"]) - independent of how the
+            # function names its own parameters
+            args, kwargs = [], {}
+            for n in shape[0]:
+                if n.startswith("*"):
+                    args += list(inputs.vars[n[1:]])
+                else:
+                    args.append(inputs.vars[n])
+            for n in shape[1]:
+                kwargs[n] = inputs.vars[n]
+        try:
+            env = ex.bind_args(func, args, kwargs)
+        except PyRaise as e:
+            raise OutOfReach(f"{self.qualname}: the call described by the contract's parameters does not bind to "
+                             f"the function's signature ({getattr(getattr(e.exc, 'cls', None), '__name__', 'TypeError')})")
         for k, v in inputs.vars.items():     # ghost parameters
             env.vars.setdefault(k, v)
         env.vars.setdefault("old", old)      # for loop invariants
@@ -816,6 +833,10 @@ def verify(contract, report, max_paths=5000, options=None, replay=None,
             # (inputs that could not be concretised are passed on as such: a
             # replay harness with a fixed scenario does not need them)
             rp = (lambda m, cr=cr: replay(cr.name, cr.inputs, cr.notes))
+        elif replay is not None and cr.verdict == smt.REFUTED and hasattr(replay, "fallback"):
+            # the solver refuted the clause without a usable model: the
+            # harness may search its own small grid of inputs natively
+            rp = (lambda m, cr=cr: replay.fallback(cr.name))
         report.obligation(name, res, func=contract.qualname, text=cr.text,
                           replay=rp, candidate=getattr(cr, "candidate", False))
     if not quiet:
